@@ -64,7 +64,11 @@ LEVEL_NOTE = ("Bit-identity is expected; 1e-6*S is allowed (S = max(1, "
               "|weights|, |results|, |bounds|) for weight relations, S = "
               "max(1, |outputs|, magnitude of the summed terms) for outputs) "
               "because per-column and per-row calls may use different "
-              "reduction/matmul blocking. The oracle is the library itself on "
+              "reduction/matmul blocking; pwl_calibration_fn gets in addition "
+              "sum|dy_i|*min(1, 2*(k+2)*eps32*(|range ends|+range)/len_i) over "
+              "the segments x lies in or touches (its per-example softmax "
+              "keypoints round differently by an ulp depending on the row's "
+              "position). The oracle is the library itself on "
               "the sub-problem, so errors common to both sides are invisible "
               "here (C01-C08, C20 judge the values). Lattice/KFL layers with "
               "clip_inputs=False are evaluated inside their domain only. "
@@ -88,6 +92,7 @@ B_KINDS = (["lattice", "pwl", "categorical", "linear", "kfl", "cdf", "cdf_fn",
             "pwl_fn", "rtl", "parcomb"] * 3 + ["premade"] * 2)
 B_RELS = ["batch-row", "batch-perm", "batch-subset"]
 MISSING = -777.0
+EPS32 = float(np.finfo(np.float32).eps)
 _FN_USES = {}
 
 
@@ -385,6 +390,24 @@ def _entry_point(fn, name, limit=120):
   return tf.function(fn.python_function)
 
 
+class _FnCrash(Exception):
+  """A functional entry point raised on a valid call.  Inside a tf.function
+  the traceback no longer names the library file, so the harness could not
+  attribute it; run_case turns it into a violation."""
+
+  def __init__(self, name, err):
+    Exception.__init__(self, "%s raised %s: %s" % (name, type(err).__name__,
+                                                   str(err)[:300]))
+    self.name, self.exc = name, type(err).__name__
+
+
+def _call_fn(fn, name, *args, **kw):
+  try:
+    return fn(*args, **kw)
+  except Exception as e:  # pylint: disable=broad-except
+    raise _FnCrash(name, e)
+
+
 def _new_values(rs, old, mag):
   """Replacement float32 values for one unit's parameters (clearly different)."""
   old = np.asarray(old, np.float64)
@@ -446,6 +469,7 @@ class Model(object):
     self.mag = 1.0          # magnitude of the terms summed into an output
     self.perturb = None     # v -> None (replaces unit v's parameters)
     self.unit_inputs = []   # indices of inputs with a unit axis (axis 1)
+    self.extra_tol = None   # inputs -> per-output elementwise allowance
     self.labels = []
 
 
@@ -721,7 +745,8 @@ def _b_cdf_fn(case, rs):
       kw["scaling_parameters"] = tf.constant(a[2])
       if cfg["exp_mult"] is not None:
         kw["scaling_exp_transform_multiplier"] = cfg["exp_mult"]
-    return [_f64(fn(tf.constant(a[0]), tf.constant(a[1]), **kw))]
+    return [_f64(_call_fn(fn, "cdf_fn", tf.constant(a[0]), tf.constant(a[1]),
+                          **kw))]
   m.call = call
   m.labels = ["cdf_fn:" + cfg["activation"],
               "cdf_fn:reduction=" + cfg["reduction"],
@@ -773,9 +798,35 @@ def _b_pwl_fn(case, rs):
       if cfg["missing"] == "fixed":
         kw["missing_output_value"] = cfg["omin"]
     pin = None if pin_idx is None else tf.constant(a[pin_idx])
-    return [_f64(fn(tf.constant(a[0]), pin, tf.constant(a[pout_idx]), **kw))]
+    call.kw = kw
+    return [_f64(_call_fn(fn, "pwl_calibration_fn", tf.constant(a[0]), pin,
+                          tf.constant(a[pout_idx]), **kw))]
   m.call = call
   m.mag = max(1.0, abs(cfg["omin"]), abs(cfg["omax"]))
+
+  def extra_tol(a):
+    """Conditioning of the interpolation weights (x - keypoint) / length.
+
+    The keypoints are a per-example softmax; TensorFlow's vectorised exp may
+    round differently by one ulp depending on the position of the row in the
+    batch, which moves a keypoint by a few ulps of the input range.  A segment
+    x lies in (or touches) passes that on amplified by 1 / length.  Lengths
+    and output deltas are the library's own derived parameters.
+    """
+    kw = dict(call.kw, return_derived_parameters=True)
+    pin = None if pin_idx is None else tf.constant(a[pin_idx])
+    _, deltas, kern = _call_fn(fn, "pwl_calibration_fn", tf.constant(a[0]),
+                               pin, tf.constant(a[pout_idx]), **kw)
+    ln, dy = _f64(deltas), np.abs(_f64(kern)[..., 1:])
+    kp = lo + np.cumsum(ln, axis=-1) - ln
+    xx = a[0].astype(np.float64)[:, :, None]
+    d = (kk + 2) * EPS32 * (max(abs(lo), abs(hi)) + (hi - lo))
+    near = (xx >= kp - d) & (xx <= kp + ln + d)
+    with np.errstate(divide="ignore"):
+      amp = np.minimum(1.0, 2 * d / ln)
+    e = np.sum(np.where(near, dy * amp, 0.0), axis=-1)
+    return [np.broadcast_to(e, (a[0].shape[0], u)).copy()]
+  m.extra_tol = extra_tol
   m.labels = ["pwl_fn:" + cfg["mono"], "pwl_fn:missing=" + cfg["missing"],
               "pwl_fn:keypoints=" + ("2" if kk == 2 else ">2"),
               "pwl_fn:in-params=" + (cfg["pin"] if kk > 2 else "None"),
@@ -827,8 +878,10 @@ def _b_rtl(case, rs):
       return [_f64(y[key]) for key in sorted(y.keys())]
     return [_f64(y)]
   m.call = call
-  m.mag = scale_of(*[w.numpy() for w in rtl.weights]) ** (
-      rank + 1 if param == "kronecker_factored" else 1)
+  # all_vertices: convex combination of vertex values; kronecker_factored:
+  # scale * product over `rank` interpolated factors + bias.
+  a = scale_of(*[w.numpy() for w in rtl.weights])
+  m.mag = a if param == "all_vertices" else a ** (rank + 1) + a
   m.labels = ["rtl:" + param, "rtl:input-" + cfg["format"],
               "rtl:separate" if cfg["separate"] else (
                   "rtl:averaged" if cfg["average"] else "rtl:joint")]
@@ -922,7 +975,9 @@ def _b_premade(case, rs):
   for w in model.weights:
     w.assign(w + (rs.normal(size=tuple(w.shape)) * 0.2).astype(np.float32))
   m.call = lambda a: [_f64(model([tf.constant(t) for t in a]))]
-  m.mag = scale_of(*[w.numpy() for w in model.weights]) * 4.0
+  # every stage is an interpolation / lookup of one weight tensor: its
+  # absolute sum bounds the terms summed into an output.
+  m.mag = max(float(np.sum(np.abs(w.numpy()))) for w in model.weights)
   m.labels = ["premade:features=%d" % len(fcs),
               "premade:output-calibration" if cfg["out_calib"] else
               "premade:no-output-calibration"]
@@ -1190,15 +1245,31 @@ def _run_weights(case, out, rs):
 
 
 # ---------------------------------------------------------------------------
-def _compare_outputs(out, ya, yb, tol_s, what, sig):
+def _compare_outputs(out, ya, yb, s, what, sig, extra=None):
+  """|a-b| <= TOL*s (+ extra, an elementwise conditioning allowance)."""
   out.checks += 1
   worst = 0.0
   for k, (a, b) in enumerate(zip(ya, yb)):
-    err = _mismatch(a, b, tol_s)
-    worst = max(worst, err)
-    if err > TOL * tol_s:
-      out.violate("%s: output %d differs by %.3g (tolerance %.3g)" %
-                  (what, k, err, TOL * tol_s), **sig)
+    if a.shape != b.shape:
+      out.violate("%s: output %d has shape %s vs %s" % (what, k, a.shape,
+                                                       b.shape), **sig)
+      return False, np.inf
+    if a.size == 0 or np.array_equal(a, b, equal_nan=True):
+      continue
+    tol = np.full(a.shape, TOL * s)
+    if extra is not None:
+      tol = tol + extra[k]
+    same = (a == b) | (np.isnan(a) & np.isnan(b))
+    with np.errstate(invalid="ignore"):
+      err = np.where(same, 0.0, np.abs(a - b))
+    bad = ~same & (~np.isfinite(err) | (err > tol))
+    worst = max(worst, float(np.max(np.where(np.isfinite(err), err, np.inf))))
+    if np.any(bad):
+      i = np.unravel_index(int(np.argmax(np.where(bad, np.where(
+          np.isfinite(err), err / tol, np.inf), 0.0))), a.shape)
+      out.violate("%s: output %d differs by %.3g at %s (%r vs %r, tolerance "
+                  "%.3g)" % (what, k, err[i], list(map(int, i)), float(a[i]),
+                             float(b[i]), tol[i]), **sig)
       return False, worst
   return True, worst
 
@@ -1272,13 +1343,15 @@ def _run_batch(case, out, rs):
     size = rs.randint(2, b)
     subsets = [[int(i) for i in rs.permutation(b)[:size]]]
   s = scale_of(m.mag, *full)
+  extra = m.extra_tol(arrs) if m.extra_tol is not None else None
   worst = 0.0
   for idx in subsets:
     sub = m.call([a[idx] if f else a for a, f in zip(arrs, flags)])
     ok, w = _compare_outputs(
         out, [y[idx] for y in full], sub, s,
         "%s %s: layer(x)[%s] differs from layer(x[%s])" % (kind, rel, idx, idx),
-        dict(clause="per-row", **sig))
+        dict(clause="per-row", **sig),
+        extra=None if extra is None else [e[idx] for e in extra])
     worst = max(worst, w)
     if not ok:
       break
@@ -1298,12 +1371,16 @@ def run_case(case):
   out.label("%s:%s|%s" % (group, case["kind"], case["rel"]),
             "rel:" + case["rel"], "kind:" + case["kind"],
             "units:%d" % case["units"])
-  if group == "W":
-    _run_weights(case, out, rs)
-  elif group == "U":
-    out.label("batch:%d" % case["batch"])
-    _run_units(case, out, rs)
-  else:
-    out.label("batch:%d" % case["batch"])
-    _run_batch(case, out, rs)
+  try:
+    if group == "W":
+      _run_weights(case, out, rs)
+    elif group == "U":
+      out.label("batch:%d" % case["batch"])
+      _run_units(case, out, rs)
+    else:
+      out.label("batch:%d" % case["batch"])
+      _run_batch(case, out, rs)
+  except _FnCrash as e:
+    out.nontrivial = True
+    out.violate(str(e), kind="exception", exc=e.exc, where=e.name)
   return out
